@@ -27,6 +27,8 @@ def main():
             rc = mod.replay(chk, a.replay)
             sys.exit(rc)
         audit = None
+        if a.no_proof:
+            core.EVIDENCE = core.VERIF / "evidence_dev"      # development runs never touch the committed evidence
         if not a.no_proof:
             audit = core.proof_audit(pid, leanchecker=(a.tier == "thorough"))
         search = mod.run(chk)
